@@ -39,14 +39,26 @@ def run(F, chk):
             for site in alias.field_touch(b, og, MGR, fld):
                 if site["kind"] == "call" and site["direct"] and any(site["callee"].endswith(x) for x in INSERTERS):
                     writers[fld].append((b, site))
-    ocd = mgr_fn(F, "on_client_datagram")
+    ocd0 = mgr_fn(F, "on_client_datagram")
+    # private helpers are examined as part of their caller: on_client_datagram with them spliced in
+    ocd = lib.flat(F, ocd0)
+    spliced = {x[0] for x in ocd.inl}
+    og_flat = alias.Origins(ocd)
     for fld in ("flows", "table"):
         ra.require(writers[fld], "no insertion into UdpManager.%s found" % fld)
+        sites = []
         for b, site in writers[fld]:
-            key = "%s|%s.insert" % (b.path, fld)
-            if b.path != ocd.path:
-                ra.violation(key, b.where(site["bb"]), "insertion into UdpManager.%s outside on_client_datagram (%s)" % (fld, site["callee"]))
+            if b.path == ocd0.path:
                 continue
+            if b.path in spliced and lib.only_called_from(F, b.path, {ocd0.path} | spliced):
+                continue
+            ra.violation("%s|%s.insert" % (b.path, fld), b.where(site["bb"]), "insertion into UdpManager.%s outside on_client_datagram (%s)" % (fld, site["callee"]))
+        for site in alias.field_touch(ocd, og_flat, MGR, fld):
+            if site["kind"] == "call" and site["direct"] and any(site["callee"].endswith(x) for x in INSERTERS):
+                sites.append((ocd, site))
+        ra.require(sites, "no insertion into UdpManager.%s in on_client_datagram" % fld)
+        for b, site in sites:
+            key = "%s|%s.insert" % (b.path, fld)
             # accepted edges: draining == false ; flows.len() < max_flows
             def drain_pred(bi, truth, atom):
                 return atom[0] == "place" and any(a.endswith("UdpManager") and f == "draining" for a, _, f in proj_fields(atom[1])) and truth is False
@@ -76,6 +88,8 @@ def run(F, chk):
                                  fld, " and ".join(x for x, ok in (("the !draining edge", ok_d), ("a strict flows.len() < max_flows edge", ok_c)) if not ok)))
     # ---------------- R-C19-e existing flows continue under saturation / drain
     re_ = chk.rule("R-C19-e", "T5", "the tracked-flow path is not behind the cap / drain tests", floor=1)
+    ocd_a = ocd
+    ocd = lib.flat(F, ocd0, keep=("::forward_on_existing_flow",))
     fwd = [bi for bi, t in ocd.calls() if callee_of(t) == MGR + "::<E>::forward_on_existing_flow"]
     if re_.require(fwd, "on_client_datagram: forward_on_existing_flow call not found"):
         re_.fn(ocd.path)
@@ -95,6 +109,7 @@ def run(F, chk):
             re_.broke("on_client_datagram: draining / cap tests not found")
         else:
             re_.violation(key, ocd.where(fwd[0]), "datagrams of an already tracked flow only reach forward_on_existing_flow after the %s test: under drain or at the cap live flows are shed together with new ones" % sorted({n for _, n in dom}))
+    ocd = ocd0
     # ---------------- R-C19-b stickiness skeleton -------------------------
     rb = chk.rule("R-C19-b", "T4+T5", "SelectBackend only at admission; backend_addr/backend_id written only in "
                   "on_backend_resolved behind phase==AwaitingBackend", floor=3)
